@@ -117,6 +117,18 @@ def fmt(d, k, ig, dl, c, ck=None) -> str:
     return f"d={d} k={k} ig={int(ig)} D={dl} c={cs}"
 
 
+
+def extra_obligations():
+    """`_AsyncTimeout.__call__` and its callbacks `on_completion`, `on_timeout`, `on_result` regenerated from /repo's timeouted.py
+    as MiniPy terms: Lean re-checks that each callback is the corresponding label of `Timeout.step` (runCompletion, timerFires,
+    runResult) on every model state, and that `__call__` wires them - one future, one task from one call of the function, the
+    timer armed with `self._timeout` for `on_timeout(future)`, `on_completion` on the task, `on_result` on the future, then
+    `await future`"""
+    from harness import core, regen
+
+    return regen.check("timeout", core.REPO, core.LEAN)
+
+
 def corpus():
     return [
         "d=1 k=self ig=0 D=3 c=-",    # function ends cancelled: caller hung for ever on the pinned tree
